@@ -729,6 +729,19 @@ func TestC07(t *testing.T) {
 				verdict(t, "C07", "c07", c07Case{Src: "ttml", SrcExt: "ttml", Doc: deepDoc, Ops: ops, Dst: dst, DstExt: dst, CLI: true, Chain: k > 0}, checkC07)
 			}
 		}
+		// a first input whose list has no definition maps at all (what the teletext reader returns) merged with a document
+		// that brings styles and regions its cues use: the destination must still be readable
+		tsGen := rapid.Custom(func(rt *rapid.T) c07Case {
+			doc, page := genC07Doc(rt, "ts")
+			return c07Case{Doc: doc, Page: page}
+		})
+		for k := 0; k < 3; k++ {
+			tc := tsGen.Example(40 + k)
+			for _, dst := range []string{"ttml", "vtt", "ssa"} {
+				ev.CaseH(true, mix(strHash("tsmerge"+dst), uint64(k)), "matrix", "teletext-source-merged-with-a-styled-document")
+				verdict(t, "C07", "c07", c07Case{Src: "ts", SrcExt: "ts", Doc: tc.Doc, Page: tc.Page, Other: "ttml", OtherDoc: deepDoc, Ops: []c07Op{{Name: "merge"}}, Dst: dst, DstExt: dst, CLI: k == 0}, checkC07)
+			}
+		}
 		for _, bad := range []string{"txt", "sub", "SRTX", "x", "ttm", "vt", "ts", "TS", "m2ts", "srt.bak", "stlx"} {
 			ev.CaseH(true, strHash("bad"+bad), "invalid-extension")
 			verdict(t, "C07", "c07", c07Case{BadExt: bad, Doc: []byte("1\n00:00:01,000 --> 00:00:02,000\nx\n")}, checkC07)
